@@ -190,10 +190,16 @@ def cmp_table(rep, F, rule='ORDER-TABLE'):
                 # a `match` on a sign: the NoSign arm is the both-zero row (the signs are already known to be equal), any
                 # other arm establishes a non-zero operand
                 if c == ('eq', 1):
-                    same_nonzero = -2 if same_nonzero >= 0 else same_nonzero
+                    if same_nonzero > 0 and (same_nonzero & 2):
+                        infeasible = True        # a NoSign arm after the operands were established to be non-zero
+                    else:
+                        same_nonzero = -2 if same_nonzero >= 0 else same_nonzero
                     continue
                 if (c[0] == 'eq' and c[1] in (0, 2)) or (c[0] == 'notin' and 1 in c[1]):
-                    same_nonzero |= 2
+                    if same_nonzero == -2:
+                        infeasible = True        # a non-zero arm after the both-zero row was entered
+                    else:
+                        same_nonzero |= 2
             sa = _sign_atom(s, c)
             if sa is not None:
                 signs &= sa
